@@ -71,7 +71,7 @@ namespace cnl::_impl {
         } else {
             for (int in_exponent = InExponent;
                  in_exponent != 0 || !(output.significand % OutRadix);) {
-                if (!(output.significand % OutRadix)) {
+                if (!(output.significand % OutRadix) || oob(output.significand)) {
                     output.significand /= OutRadix;
                     output.exponent++;
                     continue;
